@@ -474,6 +474,31 @@ def snap_deme(d, full=True):
     return out
 
 
+def snap_report(tree):
+    """the structured content of the real `summary()` (which embeds `tree()`), parsed from the text:
+    header counts, per-level counts ('-' = "No demes available."), one record per displayed deme line"""
+    from . import monitors as M  # lazy: monitors imports this module
+
+    try:
+        text = tree.summary()
+    except Exception as e:  # e.g. no individual anywhere yet
+        return {"raised": type(e).__name__}
+    ps = M.parse_summary(text)
+    lines = []
+    for ln in M.parse_tree(text.split("\n\n")[-1]):
+        if "raw" in ln:
+            lines.append(("?", ln["raw"][:40], "?", "?"))
+        else:
+            lines.append((ln["id"], ln["cls"], ln["evals"], 1 if ln["mark"].strip() else 0))
+    return {
+        "metaepoch": ps["metaepoch"],
+        "evals": ps["evals"],
+        "demes": ps["demes"],
+        "levels": ["-" if lv["none"] else f"{lv['evals']}/{lv['demes']}" for lv in ps["levels"]],
+        "lines": lines,
+    }
+
+
 def snap_tree(tree, order, full=True):
     demes = {d.id: d for _, d in tree.all_demes}
     ids = [i for i in order if i in demes] + [i for i in demes if i not in order]
@@ -481,6 +506,7 @@ def snap_tree(tree, order, full=True):
         "metaepoch": int(tree.metaepoch_count),
         "n_evals": int(tree.n_evaluations),
         "levels": [[d.id for d in lv] for lv in tree.levels],
+        "report": snap_report(tree) if full else None,
         "demes": [snap_deme(demes[i], full) for i in ids],
     }
 
